@@ -59,7 +59,7 @@ VF_EXPORT int vf_init(void) {
     static int done = 0;
     if (!done) {
         secp256k1_ecmult_gen_compute_table((secp256k1_ge_storage *)&secp256k1_ecmult_gen_prec_table[0][0], &secp256k1_ge_const_g, COMB_BLOCKS, COMB_TEETH, COMB_SPACING);
-        secp256k1_ecmult_compute_two_tables((secp256k1_ge_storage *)secp256k1_pre_g, (secp256k1_ge_storage *)secp256k1_pre_g_128, &secp256k1_ge_const_g, WINDOW_G);
+        secp256k1_ecmult_compute_two_tables((secp256k1_ge_storage *)secp256k1_pre_g, (secp256k1_ge_storage *)secp256k1_pre_g_128, WINDOW_G, &secp256k1_ge_const_g);
         done = 1;
     }
 #endif
